@@ -98,19 +98,20 @@ Section Dec.
         existsb (fun nd => label_eqb l (b32 (h (fst nd))) && list_eqb N.eqb (n3_types r) (snd nd) &&
                            forallb (fun m => negb (rfc_coversb (h (fst nd)) (n3_next r) (h m))) (z_names z))
                 (z_nodes z) &&
-        name_eqb base (z_apex z) && bytes_eqb (n3_salt r) salt && (n3_iter r =? iter) &&
+        name_eqb base (z_apex z) && (n3_alg r =? 1) && bytes_eqb (n3_salt r) salt && (n3_iter r =? iter) &&
         existsb (fun n' => bytes_eqb (n3_next r) (h n')) (z_names z)
     end.
 
   Lemma genuineb_ok z salt iter r : genuineb z salt iter r = true -> genuine h z salt iter r.
   Proof.
     unfold genuineb. destruct (n3_owner r) as [|l base] eqn:Eo; [discriminate|].
-    rewrite !andb_true_iff. intros [[[[Hex Hb] Hs] Hi] Hn].
+    rewrite !andb_true_iff. intros [[[[[Hex Hb] Ha] Hs] Hi] Hn].
     apply existsb_exists in Hex. destruct Hex as ([n ts] & Hin & Hx). cbn [fst snd] in Hx.
     rewrite !andb_true_iff in Hx. destruct Hx as [[Hl Ht] Hgap].
     apply existsb_exists in Hn. destruct Hn as (n' & Hn' & En').
     exists n, ts, l, base. repeat split; try assumption.
     - now apply types_eqb_eq.
+    - now apply N.eqb_eq.
     - now apply bytes_eqb_eq.
     - now apply N.eqb_eq.
     - exists n'. split; [exact Hn'|]. now apply bytes_eqb_eq.
